@@ -134,6 +134,7 @@ fn spaces(id: &str, tier: Tier) -> Vec<Box<dyn Space>> {
             v.push(Box::new(ms_e(if t { 2 } else { 1 })));
             v.push(Box::new(ms_e_runs(if t { 2 } else { 1 })));
             v.push(Box::new(scale_family(true)));
+            v.push(Box::new(sorted_run_family()));
             v.push(Box::new(unicode_family()));
             if t {
                 v.push(Box::new(ms_a_depth3()));
@@ -148,6 +149,8 @@ fn spaces(id: &str, tier: Tier) -> Vec<Box<dyn Space>> {
             v.push(Box::new(scale_family(false)));
             v.push(Box::new(relation_family()));
             v.push(Box::new(unicode_family()));
+            // noise lines (incl. R8's indented member comments) inside inline groups: "followed by" looks through them
+            v.push(Box::new(ms_e(if t { 2 } else { 1 })));
             // obfuscated ranges that are equal only modulo 2^32: distinct ranges, no inline group
             {
                 let big = 1u64 << 32;
@@ -230,7 +233,7 @@ pub fn run(id: &str, tier: Tier) -> i32 {
         level: "model_checking",
         rule: match id {
             "C01" => "states = mapping histories (all line sequences of the listed scopes); in every state the complete line-based query universe Q(M) is issued against mapper, mapper-with-index and cache(written->parsed) and compared with the reference model (R1-R7); for every distinct non-empty answer of a state the frame iterator is also consumed through nth(k) for every k, skip, step_by, last, count, size_hint and after partial consumption, and must show the sequence of repeated next() (iterator protocol, pgmc/src/iterp.rs). Mappers are built through new()/new_with_param_mapping() for one half of the states and through the From<&str> / From<(&str, bool)> conversions for the other half (a fixed function of the bytes). distinct = distinct model answers (frame lists); non-trivial = answers with >= 1 frame".into(),
-            "C03" => "states = mapping histories; in every state all (class, method, parameter-string) triples of Q(M) are issued against mapper-with-index and cache (must equal model R10+R5) and the mapper without index (must be empty); iterator protocol as in C01 for every distinct non-empty answer. distinct = distinct model answers; non-trivial = answers with >= 1 frame".into(),
+            "C03" => "states = mapping histories; in every state all (class, method, parameter-string) triples of Q(M) are issued against mapper-with-index and cache (must equal model R10+R5) and the mapper without index (outside the statement: must be empty or equal to the model); iterator protocol as in C01 for every distinct non-empty answer. distinct = distinct model answers; non-trivial = answers with >= 1 frame".into(),
             _ => "handle-history pass: for every ordered pair of 7 small mappings, every last query on the first handle and every first query on the second (28 queries: class / method / frame by line / frame by parameters / throwable / signature / text trace x 4 class names), a cache (and a mapper) is created, queried and dropped and the second one is created in the same memory (same address) - the first and the repeated query must be answered from the new contents. states = mapping histories / name tables; in every state every name of Q(M) (names in the file, each +-1 trailing character, empty, unknown) is looked up as class, throwable and (class, method); consistency clause evaluated on the implementation for every line of Q(M). distinct = distinct model answers; non-trivial = Some(..) answers".into(),
         },
         bounds: json!({"scopes": spaces.iter().map(|s| s.describe_short()).collect::<Vec<_>>(), "corpus": corpus.iter().map(|c| json!({"file": c.name, "class_blocks": c.blocks.len(), "queries": "per class block: the block's names (+ near misses) x every range boundary +-1, midpoints, 0, 1, 2^64-1"})).collect::<Vec<_>>() }),
